@@ -46,8 +46,27 @@ func RandomUniformBinaryTree(nbtips int, rooted bool) (*Tree, error) {
 			}
 			t.SetRoot(n2)
 		default:
-			// Where to insert the new tip
-			i_edge := rand.Intn(len(edges))
+			// Where to insert the new tip: on one of the branches or, if the
+			// tree is rooted, above the root (a rooted tree with k tips has
+			// 2k-1 insertion places, otherwise the tips added first could
+			// never be separated from the others by the root)
+			nplaces := len(edges)
+			if rooted {
+				nplaces++
+			}
+			i_edge := rand.Intn(nplaces)
+			if i_edge == len(edges) {
+				oldroot := t.Root()
+				newroot := t.NewNode()
+				newedge := t.ConnectNodes(newroot, oldroot)
+				newedge2 := t.ConnectNodes(newroot, n)
+				newedge.SetLength(gostats.Exp(lambda))
+				newedge2.SetLength(gostats.Exp(lambda))
+				t.SetRoot(newroot)
+				edges = append(edges, newedge)
+				edges = append(edges, newedge2)
+				continue
+			}
 			e := edges[i_edge]
 			newedge, newedge2, _, err := t.GraftTipOnEdge(n, e)
 			e.SetLength(gostats.Exp(lambda))
